@@ -26,7 +26,7 @@ MECHANISMS = ["jaxley.io.swc:read_swc", "jaxley.io.swc:swc_to_jaxley", "jaxley.u
               "jaxley.utils.cell_utils:_split_long_branches"]
 MECHANISMS_REQUIRED = MECHANISMS[:7]
 REQUIRED = {"quick": {"structure": 60, "lengths": 60, "radii": 60, "groups": 60, "ncomp_indep": 30, "split": 8},
-            "thorough": {"structure": 300, "lengths": 300, "radii": 300, "groups": 300, "ncomp_indep": 150, "split": 40}}
+            "thorough": {"structure": 1120, "lengths": 528, "radii": 715, "groups": 560, "ncomp_indep": 560, "split": 186}}
 WALL_BUDGET = {"quick": 1500, "thorough": 4 * 3600}
 
 
